@@ -528,7 +528,8 @@ def unit_teardown_wrappers(eng, tier, prop):
         return a
     eng.handlers.insert(0, (rx, h))
     # iterator plumbing over the error list is std code; summarise `errors.iter().map(to_string).collect::<Vec<_>>()` + join + eprintln as opaque
-    pats = [r"slice::(.*::)?iter$", r"Iterator>::map$", r"Iterator>::collect$", r"join$", r"_eprint$", r"_print$"]
+    pats = [r"slice::(.*::)?iter$", r"Iterator>::map$", r"Iterator>::collect$", r"join$", r"_eprint$", r"_print$",
+            r"^Vec::(dedup|dedup_by|dedup_by_key|sort|sort_unstable|truncate|retain|pop|remove|swap_remove|drain|clear)$", r"Iterator>::(take|skip|filter|step_by|rev)$", r"slice::(.*::)?(sort|sort_unstable|reverse)$"]
     try:
         d = z3.BitVec("td.discr", 64)
         tp = eng.find_fn(r"^teardown_panic$")
